@@ -1,6 +1,7 @@
 package engine
 
 import (
+	"context"
 	"bytes"
 	"encoding/hex"
 	"encoding/json"
@@ -22,7 +23,9 @@ import (
 	"github.com/bartventer/httpcache/store/expapi"
 	"github.com/bartventer/httpcache/store/fscache"
 	"github.com/bartventer/httpcache/verifsim/kit"
+	"github.com/bartventer/httpcache/verifsim/simgo"
 	"github.com/bartventer/httpcache/verifsim/simos"
+	"github.com/bartventer/httpcache/verifsim/simrand"
 )
 
 // SHist is one store-level operation in the recorded history.
@@ -40,6 +43,7 @@ type SHist struct {
 	NotEx   bool
 	Err     string
 	Got     []byte
+	TimedOut bool  // the backend's operation timeout ended the call; the operation itself may still be running
 	GotID   string // get: id of the value returned ("" if not one of the values set)
 	Keys    []string
 	API     bool
@@ -95,12 +99,19 @@ func svalID(v []byte) string {
 	return parts[0]
 }
 
+func (r *Run) fsTimeoutParam() string {
+	if r.Scn.FsTimeoutNs > 0 {
+		return "&timeout=" + time.Duration(r.Scn.FsTimeoutNs).String()
+	}
+	return ""
+}
+
 func (r *Run) ssimDSN() string {
 	switch r.Scn.Backend {
 	case "fsenc":
-		return "fscache:///simcache?appname=app&encrypt=aesgcm&encrypt_key=" + r.ssimKey()
+		return "fscache:///simcache?appname=app&encrypt=aesgcm&encrypt_key=" + r.ssimKey() + r.fsTimeoutParam()
 	case "fs":
-		return "fscache:///simcache?appname=app"
+		return "fscache:///simcache?appname=app" + r.fsTimeoutParam()
 	}
 	return "memcache://"
 }
@@ -117,11 +128,11 @@ func (r *Run) ssimOpen() (driver.Conn, error) {
 	case "fsenc":
 		switch r.Scn.EncVia {
 		case "option":
-			return fscache.Open("app", fscache.WithBaseDir("/simcache"), fscache.WithEncryption(r.ssimKey()))
+			return fscache.Open("app", fscache.WithBaseDir("/simcache"), fscache.WithEncryption(r.ssimKey()), fscache.WithTimeout(time.Duration(r.Scn.FsTimeoutNs)))
 		case "env":
 			simos.Setenv("FSCACHE_ENCRYPT_KEY", r.ssimKey())
 			defer simos.Unsetenv("FSCACHE_ENCRYPT_KEY")
-			return store.Open("fscache:///simcache?appname=app&encrypt=on")
+			return store.Open("fscache:///simcache?appname=app&encrypt=on" + r.fsTimeoutParam())
 		}
 		return store.Open(r.ssimDSN())
 	case "fs":
@@ -136,6 +147,8 @@ func RunSsim(scn *Scenario) *Run {
 	tape := kit.NewTape(scn.Decisions, scn.SchedSeed, len(scn.Decisions) == 0)
 	r.Sim = kit.New(tape, scn.Sched)
 	simos.Reset(diskHook{r})
+	simrand.SetHook(r.randHook)
+	simgo.SetHook(r.goHook)
 	simos.WriteChunk = scn.WChunk
 	if scn.Backend == "fsenc" {
 		r.plainWatch = true
@@ -156,6 +169,9 @@ func RunSsim(scn *Scenario) *Run {
 				break
 			}
 			r.Sim.Adopt(g)
+			r.mu.Lock()
+			r.curPhase = ph
+			r.mu.Unlock()
 			conn, err := r.ssimOpen()
 			g = r.Sim.Yield("sup-open")
 			if r.Sim.Aborted() {
@@ -194,6 +210,8 @@ func RunSsim(scn *Scenario) *Run {
 	r.Sim.Abort()
 	all.Wait()
 	simos.SetHook(nil)
+	simrand.SetHook(nil)
+	simgo.SetHook(nil)
 	return r
 }
 
@@ -252,6 +270,9 @@ func (r *Run) sclient(phase, ci int, cl *SClient) {
 		switch op.Kind {
 		case "set", "set-mutate", "set-same":
 			h.ValID = fmt.Sprintf("%s.%d", name, oi)
+			if op.Twin > 0 {
+				h.ValID = fmt.Sprintf("twin%d", op.Twin)
+			}
 			h.Val = sval(h.ValID, op.ValLen, op.Class)
 			if op.Kind == "set-same" {
 				// exactly the bytes of the previous Set of this key
@@ -276,6 +297,7 @@ func (r *Run) sclient(phase, ci int, cl *SClient) {
 			h.OK = err == nil
 			if err != nil {
 				h.Err = err.Error()
+				r.noteTimeout(h, err)
 			}
 			if r.Scn.Backend == "fsenc" {
 				h.File = r.onlyFile()
@@ -347,6 +369,7 @@ func (r *Run) sclient(phase, ci int, cl *SClient) {
 			v, err := conn.Get(key)
 			if err != nil {
 				h.Err, h.NotEx = err.Error(), errors.Is(err, driver.ErrNotExist)
+				r.noteTimeout(h, err)
 			} else {
 				h.OK, h.Got, h.GotID = true, append([]byte(nil), v...), svalID(v)
 			}
@@ -362,6 +385,7 @@ func (r *Run) sclient(phase, ci int, cl *SClient) {
 			h.OK = err == nil
 			if err != nil {
 				h.Err, h.NotEx = err.Error(), errors.Is(err, driver.ErrNotExist)
+				r.noteTimeout(h, err)
 			}
 			ret(fmt.Sprintf("del ok=%v notex=%v", h.OK, h.NotEx))
 		case "keys":
@@ -458,6 +482,15 @@ func (r *Run) apiOp(g *kit.Gor, h *SHist, op *SOp, key string, ret func(string))
 	ret(fmt.Sprintf("%s status=%d", op.Kind, rec.Code))
 }
 
+// noteTimeout marks an operation ended by the backend's own operation timeout (a fault kind: the disk was
+// slower than the configured limit). The operation's goroutine may complete it later.
+func (r *Run) noteTimeout(h *SHist, err error) {
+	if errors.Is(err, context.DeadlineExceeded) {
+		h.TimedOut = true
+		r.fired("store.op-timeout")
+	}
+}
+
 func (r *Run) onlyFileNamed() (string, []byte) {
 	files := simos.Snapshot()
 	names := make([]string, 0, len(files))
@@ -471,9 +504,17 @@ func (r *Run) onlyFileNamed() (string, []byte) {
 	return names[0], files[names[0]]
 }
 
+// onlyFile returns the content of the disk's single regular file, nil if there is not exactly one
+// (with several files the harness does not know which one belongs to a key).
 func (r *Run) onlyFile() []byte {
-	_, c := r.onlyFileNamed()
-	return c
+	files := simos.Snapshot()
+	if len(files) != 1 {
+		return nil
+	}
+	for _, c := range files {
+		return c
+	}
+	return nil
 }
 
 func (r *Run) openBadKey(variant int) (driver.Conn, error) {
@@ -553,7 +594,7 @@ func JudgeSsim(r *Run) *Judged {
 		}
 		j.Violations = append(j.Violations, v)
 	}
-	if r.OpenErr != "" {
+	if r.OpenErr != "" && !firedPrefix(r.Faults, "disk.") {
 		vfail("C14", "open-failed", "", nil, "backend could not be opened: %s", r.OpenErr)
 	}
 	// ---- C14: refinement against a map (sequential, fault-free) ----
@@ -655,6 +696,45 @@ func JudgeSsim(r *Run) *Judged {
 			}
 		}
 	}
+	// ---- C14: concurrent clients on disjoint keys: each key's operations are one sequence ----
+	if r.Scn.Disjoint && !firedPrefix(r.Faults, "disk.") {
+		model := map[string][]byte{}
+		ids := map[string]string{}
+		for _, h := range r.SHists {
+			if h.Phase != 0 || h.Ret == 0 {
+				continue
+			}
+			switch h.Op.Kind {
+			case "set", "set-mutate":
+				j.count("C14", "disjoint")
+				if !h.OK {
+					vfail("C14", "set-failed", "concurrent-disjoint", h, "Set of key %q failed on a fault-free backend while other clients worked on other keys: %s", clip(h.Key), h.Err)
+					delete(model, h.Key)
+					continue
+				}
+				model[h.Key], ids[h.Key] = h.Val, h.ValID
+			case "get", "get-mutate":
+				j.count("C14", "disjoint")
+				want, ok := model[h.Key]
+				switch {
+				case ok && !h.OK:
+					vfail("C14", "get-differs", "concurrent-disjoint+lost", h, "Get of key %q, which only this client touches: want value %s, got error %q", clip(h.Key), ids[h.Key], h.Err)
+				case ok && !bytes.Equal(h.Got, want):
+					vfail("C14", "get-differs", "concurrent-disjoint+other", h, "Get of key %q, which only this client touches: want value %s (%d bytes), got %d bytes id=%q", clip(h.Key), ids[h.Key], len(want), len(h.Got), h.GotID)
+				case !ok && h.OK:
+					vfail("C14", "get-differs", "concurrent-disjoint+phantom", h, "Get of absent key %q, which only this client touches, returned %d bytes (id=%q)", clip(h.Key), len(h.Got), h.GotID)
+				}
+			case "delete":
+				if h.OK || h.NotEx {
+					delete(model, h.Key)
+				}
+			}
+		}
+	}
+	// ---- C14: the reopened directory answers as one map (phase 2 is a single sequential client) ----
+	if r.Scn.Backend != "mem" && len(r.Scn.Phase2) == 1 && !sequential {
+		judgeRecovered(r, j, vfail)
+	}
 	// ---- C15: torn reads and linearizability (all runs) ----
 	setIDs := map[string]map[string]bool{}
 	for _, h := range r.SHists {
@@ -678,6 +758,8 @@ func JudgeSsim(r *Run) *Judged {
 					sig = "after-kill"
 				} else if firedPrefix(r.Faults, "disk.") {
 					sig = "after-write-failure"
+				} else if r.Faults["store.op-timeout"] > 0 {
+					sig = "after-timeout"
 				}
 				vfail("C15", "torn-read", sig, h, "Get of key %q returned %d bytes that are not a complete value ever passed to Set for that key (head %q)", clip(h.Key), len(h.Got), clip(string(h.Got)))
 			}
@@ -699,7 +781,8 @@ func JudgeSsim(r *Run) *Judged {
 				if h.OK {
 					delete(tampered, h.Key)
 				}
-				if lastSet != nil && lastSet.Key == h.Key && h.OK && lastSet.OK && bytes.Equal(lastSet.Val, h.Val) && h.File != nil && lastSet.File != nil {
+				if lastSet != nil && lastSet.Key == h.Key && h.OK && lastSet.OK && bytes.Equal(lastSet.Val, h.Val) && h.File != nil && lastSet.File != nil &&
+					lastSet.Ret < h.Inv && !otherWriterDuring(r, lastSet, h) {
 					j.count("C17", "deterministic-ciphertext")
 					if bytes.Equal(lastSet.File, h.File) {
 						vfail("C17", "deterministic-ciphertext", "", h, "two Sets of the same %d-byte value produced identical file contents", len(h.Val))
@@ -733,6 +816,14 @@ func JudgeSsim(r *Run) *Judged {
 			}
 		}
 	}
+	if r.Scn.Backend == "fsenc" {
+		if a, b, n := r.cipherTwins(); n >= 2 {
+			j.count("C17", "deterministic-ciphertext")
+			if a != "" {
+				vfail("C17", "deterministic-ciphertext", "files", nil, "two files written by the encrypting backend, %s and %s, received byte-identical contents", a, b)
+			}
+		}
+	}
 	// ---- C17: plaintext on disk ----
 	if r.plainWatch {
 		j.count("C17", "plaintext-on-disk")
@@ -741,6 +832,134 @@ func JudgeSsim(r *Run) *Judged {
 		}
 	}
 	return j
+}
+
+// judgeRecovered checks the second phase of a store-level run (after the first phase's clients finished or
+// were killed, the directory was opened again and one client works alone) for self-consistency: whatever
+// the first phase left behind, from now on the answers must be those of one map - a listing contains the
+// keys the client knows to be present, none it knows to be absent, nothing that was never a key, and it
+// does not fail; a key just written is read back; a key just deleted is gone. No fault is injected in
+// this phase.
+func judgeRecovered(r *Run, j *Judged, vfail func(prop, rule, sig string, h *SHist, format string, a ...any)) {
+	for _, h := range r.SHists {
+		switch h.Op.Kind {
+		case "corrupt", "rekey", "open-badkey":
+			return
+		}
+	}
+	if r.faultInPhase2 {
+		return
+	}
+	table := map[string]bool{}
+	for _, k := range r.allKeys() {
+		table[k] = true
+	}
+	known := map[string]int{} // 1 present, -1 absent, 0 unknown
+	vals := map[string][]byte{}
+	after := "reopen"
+	if r.Crashes > 0 {
+		after = "kill"
+	} else if len(r.Scn.DiskFaults) > 0 {
+		after = "disk-error"
+	}
+	for _, h := range r.SHists {
+		if h.Phase != 1 || h.Ret == 0 || h.Skipped {
+			continue
+		}
+		switch h.Op.Kind {
+		case "get":
+			j.count("C14", "recovered")
+			switch {
+			case known[h.Key] == 1 && !h.OK:
+				vfail("C14", "get-differs", "recovered+lost:"+after, h, "after %s: Get of key %q (len %d), present a moment ago, failed: %s", after, clip(h.Key), len(h.Key), h.Err)
+			case known[h.Key] == 1 && vals[h.Key] != nil && !bytes.Equal(vals[h.Key], h.Got):
+				vfail("C14", "get-differs", "recovered+other:"+after, h, "after %s: Get of key %q returned %d bytes (id=%q), not the value read or written a moment ago", after, clip(h.Key), len(h.Got), h.GotID)
+			case known[h.Key] == -1 && h.OK:
+				vfail("C14", "get-differs", "recovered+phantom:"+after, h, "after %s: Get of key %q, absent a moment ago, returned %d bytes", after, clip(h.Key), len(h.Got))
+			}
+			switch {
+			case h.OK:
+				known[h.Key], vals[h.Key] = 1, h.Got
+			case h.NotEx:
+				known[h.Key] = -1
+				delete(vals, h.Key)
+			default:
+				known[h.Key] = 0 // unreadable (for example cut short by the kill under encryption)
+				delete(vals, h.Key)
+			}
+		case "set":
+			if h.OK {
+				known[h.Key], vals[h.Key] = 1, h.Val
+			} else {
+				j.count("C14", "recovered")
+				vfail("C14", "set-failed", "recovered:"+after, h, "after %s: Set of key %q (len %d) failed without any fault: %s", after, clip(h.Key), len(h.Key), h.Err)
+				known[h.Key] = 0
+				delete(vals, h.Key)
+			}
+		case "delete":
+			j.count("C14", "recovered")
+			switch {
+			case known[h.Key] == 1 && !h.OK:
+				vfail("C14", "delete-differs", "recovered+failed:"+after, h, "after %s: Delete of present key %q failed: %s", after, clip(h.Key), h.Err)
+			case known[h.Key] == -1 && h.OK:
+				vfail("C14", "delete-differs", "recovered+phantom:"+after, h, "after %s: Delete of absent key %q succeeded", after, clip(h.Key))
+			}
+			if h.OK || h.NotEx {
+				known[h.Key] = -1
+				delete(vals, h.Key)
+			} else {
+				known[h.Key] = 0
+			}
+		case "keys":
+			if h.Err == "unsupported" {
+				continue
+			}
+			j.count("C14", "recovered")
+			if !h.OK {
+				vfail("C14", "keys-differs", "recovered+error:"+after, h, "after %s: listing keys with prefix %q failed: %s", after, clip(h.Key), h.Err)
+				continue
+			}
+			listed := map[string]bool{}
+			for _, k := range h.Keys {
+				listed[k] = true
+				if !table[k] {
+					vfail("C14", "keys-differs", "recovered+never-a-key:"+after, h, "after %s: listing returned %q, which was never a key", after, clip(k))
+				} else if !strings.HasPrefix(k, h.Key) {
+					vfail("C14", "keys-differs", "recovered+prefix:"+after, h, "after %s: listing with prefix %q returned %q", after, clip(h.Key), clip(k))
+				} else if known[k] == -1 {
+					vfail("C14", "keys-differs", "recovered+phantom:"+after, h, "after %s: listing returned key %q, which Get/Delete just reported absent", after, clip(k))
+				}
+			}
+			for k, st := range known {
+				if st == 1 && strings.HasPrefix(k, h.Key) && !listed[k] {
+					vfail("C14", "keys-differs", "recovered+missing:"+after, h, "after %s: listing with prefix %q lacks key %q, which Get just returned", after, clip(h.Key), clip(k))
+				}
+			}
+		case "reopen":
+			if !h.OK {
+				vfail("C14", "reopen-failed", "recovered:"+after, h, "after %s: reopening the backend failed: %s", after, h.Err)
+			}
+		}
+	}
+}
+
+// otherWriterDuring: some other write or delete of the same key overlapped the span from a's invocation to
+// b's return, so the file snapshots taken after a and b need not be the files a and b wrote.
+func otherWriterDuring(r *Run, a, b *SHist) bool {
+	for _, h := range r.SHists {
+		if h == a || h == b || h.Key != a.Key {
+			continue
+		}
+		switch h.Op.Kind {
+		case "set", "set-mutate", "set-same", "delete", "api-delete", "corrupt":
+		default:
+			continue
+		}
+		if (h.Ret == 0 || h.Ret > a.Inv) && h.Inv < b.Ret {
+			return true
+		}
+	}
+	return false
 }
 
 func firedPrefix(m map[string]int, p string) bool {
@@ -882,6 +1101,10 @@ func judgeLinearizable(r *Run, j *Judged, vfail func(prop, rule, sig string, h *
 				out.id = ""
 			}
 			retSeq := h.Ret
+			if h.TimedOut && in.kind != "get" {
+				// the call gave up, the operation did not: it may take effect at any later time
+				retSeq = 0
+			}
 			if retSeq == 0 {
 				retSeq = maxSeq + 1 + uint64(len(ops))
 				out.ok, out.notex, out.failed = false, false, true
@@ -904,6 +1127,8 @@ func judgeLinearizable(r *Run, j *Judged, vfail func(prop, rule, sig string, h *
 				sig = "after-kill"
 			} else if firedPrefix(r.Faults, "disk.") {
 				sig = "after-write-failure"
+			} else if r.Faults["store.op-timeout"] > 0 {
+				sig = "after-timeout"
 			} else if len(r.Scn.SClients) == 1 {
 				sig = "sequential"
 			}
